@@ -1052,6 +1052,11 @@ EXTRACTORS["C07"] = EXTRACTORS["C07"] + [GEN_SRC["SrcAvl"]]
 TRANSLATOR_MODULES.append("rs2lean_genlong")
 GEN_SRC.update({n: gen_src(n) for n in ("SrcMyersHelpers", "SrcMyersLongNew", "SrcMyersLongMatches")})
 EXTRACTORS["C09"] = EXTRACTORS["C09"] + [GEN_SRC[n] for n in ("SrcMyersHelpers", "SrcMyersLongNew", "SrcMyersLongMatches")]
+GEN_SRC.update({n: gen_src(n) for n in ("SrcMyersSimpleBest",)})
+EXTRACTORS["C09"] = EXTRACTORS["C09"] + [GEN_SRC[n] for n in ("SrcMyersSimpleBest",)]
+# genlong: the constructors (`new` / `new_ambig` of simple.rs and long.rs, `MyersBuilder`)
+GEN_SRC.update({n: gen_src(n) for n in ("SrcMyersSimpleNew", "SrcMyersLongCtor", "SrcMyersBuilder")})
+EXTRACTORS["C09"] = EXTRACTORS["C09"] + [GEN_SRC[n] for n in ("SrcMyersSimpleNew", "SrcMyersLongCtor", "SrcMyersBuilder")]
 
 
 def main():
